@@ -35,9 +35,9 @@ end module ma
 """
 
 
-def project_md(name, extra):
+def project_md(name, extra, graph=False):
     lines = ["---", f"project: {name}", "src_dir: ./src", "output_dir: ./doc", "preprocess: false",
-             "graph: false", "search: false"] + extra + ["---", "", "docs", ""]
+             f"graph: {'true' if graph else 'false'}", "search: false"] + extra + ["---", "", "docs", ""]
     return "\n".join(lines)
 
 
@@ -78,9 +78,9 @@ class Pair:
     def build_A(self):
         return run_ford(self.root / "A")
 
-    def build_B(self, b_src, external):
+    def build_B(self, b_src, external, graph=False):
         (self.root / "B" / "src" / "b.f90").write_text(b_src)
-        (self.root / "B" / "proj.md").write_text(project_md("B", [f"external: exta = {external}"]))
+        (self.root / "B" / "proj.md").write_text(project_md("B", [f"external: exta = {external}"], graph))
         return run_ford(self.root / "B")
 
     def close(self):
